@@ -25,6 +25,8 @@ import (
 //	s | s:<fault>   one replication step (handshake, then one message if anything is pending), optionally with a one-shot fault:
 //	                send reqLost respLost getAck reset resetRespLost createClient streamOpen putErr
 //	                wipeBeforeStream (the follower restarts with a deleted log between the handshake and the stream creation)
+//	                onlineRace (the follower is offline when IsReady asks; it comes online and the notification is delivered
+//	                before IsReady parks)
 //	                inflightPut (the connection dies while the follower's handler is between ReplicaLog's index check and
 //	                its queue append; the append lands when the next append arrives, a stream is reset or the follower stops)
 //	rst             all open streams are reset
@@ -94,7 +96,7 @@ func scriptString(evs []event) string {
 	return strings.Join(s, " ")
 }
 
-var stepFaults = []string{"send", "reqLost", "respLost", "getAck", "reset", "resetRespLost", "createClient", "streamOpen", "putErr", "wipeBeforeStream", "inflightPut"}
+var stepFaults = []string{"send", "reqLost", "respLost", "getAck", "reset", "resetRespLost", "createClient", "streamOpen", "putErr", "wipeBeforeStream", "inflightPut", "onlineRace"}
 
 // ---------------------------------------------------------------------------------------------
 // observations
@@ -198,6 +200,10 @@ type driver struct {
 	wipedAfterHandshake bool // fault wipeBeforeStream fired during the current Prepare
 
 	followerChangedBehindHandshake bool // during the current event
+
+	// lateAppend (free-running variant) reports whether the message of leader position pos was once delivered on a
+	// stream that died before the follower answered: its append was in flight when the leader reconnected
+	lateAppend func(pos int64) bool
 }
 
 func newDriver(w *world, rnd *rand.Rand, res *seqResult) *driver {
@@ -570,6 +576,11 @@ func (d *driver) doLeaderRestart(e event) {
 }
 
 func (d *driver) arm(fault string) {
+	if fault == "onlineRace" {
+		d.w.onlineRaceFired = false
+		d.w.armOnlineRace()
+		return
+	}
 	if fault == "wipeBeforeStream" {
 		w := d.w
 		w.tr.armFault(func(*faults) {
@@ -630,6 +641,7 @@ func (d *driver) disarm() {
 	d.w.tr.setFaults(faults{})
 	atomic.StoreInt32(&d.w.failPuts, 0)
 	d.w.parkNextPut.Store(false)
+	d.w.disarmOnlineRace()
 }
 
 func (d *driver) doStep(fault string, pre obs) {
@@ -676,6 +688,15 @@ func (d *driver) afterPrepare(pre obs, ready, parked bool) {
 			d.count("handshake.still_parked", 1)
 		} else {
 			d.count("handshake.follower_offline_parked", 1)
+		}
+		if d.w.live.Load() && !pre.Parked {
+			// the follower is live and its online notification has been delivered, yet IsReady parked itself
+			if d.w.onlineRaceFired {
+				d.count("fault.fired.onlineRace", 1)
+				d.w.onlineRaceFired = false
+			}
+			d.violate("C08/no-resync/online-notification-lost-between-liveness-check-and-park",
+				"IsReady was told the follower is not live, the follower came online and the notification was delivered before IsReady parked; it parks on its suspend channel although the follower is live and no further notification is due (%s)", pre.String())
 		}
 		return
 	}
@@ -860,7 +881,7 @@ func (d *driver) checkInvariants(pre, post obs, e event, putErr bool) {
 			case p.Pos != i:
 				d.upstreamViolated = true
 				class := "C08/follower-stores-message-at-other-position"
-				if overtaken {
+				if overtaken || (d.lateAppend != nil && d.lateAppend(p.Pos)) {
 					class += "/after-append-overtaken-by-reconnect"
 				} else if prev, ok := fMsgs[i-1]; ok && bytes.Equal(prev, b) && p.Pos == i-1 {
 					class += "/duplicate-of-previous-position"
@@ -899,7 +920,8 @@ func (d *driver) checkInvariants(pre, post obs, e event, putErr bool) {
 				cause, ok := d.rewrites[i]
 				if !ok {
 					cause = "follower-stored-other-bytes-than-offered"
-					if overtaken {
+					fp := d.identify(fMsgs[i])
+					if overtaken || (fp != nil && d.lateAppend != nil && d.lateAppend(fp.Pos)) {
 						cause = "after-append-overtaken-by-reconnect"
 					} else if prev, ok := fMsgs[i-1]; ok && bytes.Equal(prev, fMsgs[i]) {
 						cause = "follower-duplicated-previous-message"
@@ -1144,6 +1166,15 @@ func genSequence(rnd *rand.Rand, idx int, maxLen int) []event {
 		}
 	}
 	down, off := false, false
+	if directed == 2 && rnd.Intn(3) == 0 {
+		// the follower flaps while the leader is about to handshake
+		n0 := 1 + rnd.Intn(3)
+		evs = append(evs, event{Kind: "a", N: n0 + 1})
+		for i := 0; i < n0; i++ {
+			evs = append(evs, event{Kind: "s"})
+		}
+		evs = append(evs, event{Kind: "off"}, event{Kind: "rst"}, event{Kind: "s"}, event{Kind: "s", Fault: "onlineRace"})
+	}
 	for len(evs) < maxLen {
 		x := rnd.Intn(100)
 		switch {
